@@ -353,6 +353,23 @@ def run(ctx):
     ck.ob("R26f", "serde.py|serialize", shape and fmts == takes_level and kws == {"level"},
           f"serialize forwards level to exactly the bindings that take it ({takes_level})", site="wheel/python/clvm_rs/serde.py",
           detail={"formats given keywords": fmts, "keywords": sorted(kws), "rust bindings with level": takes_level})
+    # a keyword is left out only when the caller did not give it: the guard of a conditional forwarding is `name is not None`,
+    # never the truth value of the argument (0 is a legitimate limit and must reach the binding)
+    guards = []
+    for fn_ in ("deserialize", "serialize"):
+        for st in ast.walk(funcs[fn_]):
+            if not isinstance(st, ast.If):
+                continue
+            stored = [tg.slice.value for s2 in st.body if isinstance(s2, ast.Assign) for tg in s2.targets
+                      if isinstance(tg, ast.Subscript) and isinstance(tg.slice, ast.Constant) and isinstance(s2.value, ast.Name) and s2.value.id == tg.slice.value]
+            for name_ in stored:
+                t_ = st.test
+                okg = isinstance(t_, ast.Compare) and isinstance(t_.left, ast.Name) and t_.left.id == name_ and len(t_.ops) == 1 \
+                    and isinstance(t_.ops[0], ast.IsNot) and isinstance(t_.comparators[0], ast.Constant) and t_.comparators[0].value is None
+                guards.append((fn_, name_, ast.unparse(t_), okg))
+    ck.ob("R26f", "serde.py|optional keywords", all(g[3] for g in guards),
+          "an optional keyword is forwarded whenever the caller gave it (`is not None`), not only when it is truthy", site="wheel/python/clvm_rs/serde.py",
+          detail=[list(g[:3]) for g in guards])
     # defaults of the Python wrapper that change decoding: strict must default to True like the binding's
     d = funcs["deserialize"]
     kwd = {a.arg: (dv.value if isinstance(dv, ast.Constant) else "?") for a, dv in zip(d.args.kwonlyargs, d.args.kw_defaults) if dv is not None}
